@@ -43,12 +43,12 @@ func Unpack(buf []byte, dotu bool) (fc *Fcall, fcsz int, err error) {
 
 	var sz uint32
 	if dotu {
-		sz = minFcsize[fc.Type-Tversion]
-	} else {
 		sz = minFcusize[fc.Type-Tversion]
+	} else {
+		sz = minFcsize[fc.Type-Tversion]
 	}
 
-	if fc.Size < sz {
+	if fc.Size < sz+7 {
 		goto szerror
 	}
 
